@@ -112,7 +112,7 @@ PROPS["C01"] = {
     "technique": "Verus contracts on the real condition parser (parse_opcode, sanitizers, list helpers, SpendId::parse, parse_args extracted verbatim) proved equal to a table-driven rule spec over all allocator trees, opcodes and flag words; three overlays on the real parse_conditions / process_single_spend (summary == fold of the effect spec; recording rule for the deferred checks; signed texts); validate_conditions iff its accept spec; MempoolVisitor; parse_spends (unit drivers)",
     "level_text": "Deductive proof (Verus/Z3), unbounded in tree shape, list length and flags: each condition is accepted or rejected and decoded exactly as the rule table (DESIGN Appendix A) prescribes (tier 1, iff), and whenever parse_conditions / process_single_spend accept a spend, its summary (costs, relative/absolute locks, birth assertions, reserved fee, added amounts, created-coin set, coin identity) equals the fold of the per-condition effect spec over the condition list (tier 2); every announcement, concurrent-spend / -puzzle assertion, ephemeral assertion, relative mark and message is recorded into ParseState exactly once under the right coin and nothing else is (unit conditions_record, per condition); validate_conditions accepts exactly when the recorded assertions are satisfied (unit validate_conds, iff); parse_spends / run_spendbundle / run_block_generator2 string these together (unit drivers).",
     "level_note": "Assumed: clvmr Allocator accessor contracts (abstract immutable tree), bitflags semantics with constants read from flags.rs each run, 2-byte cost table entries (decided by native-eval under C04). Error codes are not part of the contract, accept/reject and the decoded value are.",
-    "components": [V("conditions_effects"), V("mempool_visitor"), V("validate_conds"), V("drivers"), V("conditions_record")],
+    "components": [V("conditions_effects"), V("mempool_visitor"), V("validate_conds"), V("drivers"), V("conditions_record"), V("conditions_aggsig")],
     "assumptions": [
         "clvmr::Allocator accessor contracts over an abstract immutable tree (shims/clvmr.rs)",
         "bitflags contains() == bit test on the constants read from flags.rs",
